@@ -126,16 +126,17 @@ proof fn lemma_vec_writer_appends<F: Fn(WriteContext<Vec<u8>>) -> GenResult<Vec<
 R = ["R20", "R21"]
 def clo(post):
     """R9: the returned closure's signature made explicit, with its contract"""
-    return (r"move \|out\|", "move |out: WriteContext<W>| -> (r2: GenResult<W>) ensures %s" % post)
+    return (r"move \|(\w+)\|", "move |\\1: WriteContext<W>| -> (r2: GenResult<W>) ensures %s" % post.replace("gen_post(out,", "gen_post(\\1,"))
 
 def clo_expr(post):
     """the same for a closure whose body is a bare expression (`move |out| match m {..}`): Verus wants a block after a return type"""
-    return (r"(?s)move \|out\| (.*\S)\s*\}\s*$", "move |out: WriteContext<W>| -> (r2: GenResult<W>) ensures %s { \\1 }\n}" % post)
+    return (r"(?s)move \|(\w+)\| (.*\S)\s*\}\s*$", "move |\\1: WriteContext<W>| -> (r2: GenResult<W>) ensures %s { \\2 }\n}" % post.replace("gen_post(out,", "gen_post(\\1,"))
 
 LEN = lambda n: {"file": F_SER, "kind": "fn", "name": "length_be_u%d" % n, "rewrites": R,
     "subst": [clo("forall|o: GenOut| #![trigger emits(f, o)] emits(f, o) ==> gen_post(out, r2, len%d_out(o))" % n),
-              (r"gen\(&f, Vec::new\(\)\)", "gen_ref(&f, Vec::new())"),      # shim gen takes the serializer by reference (the call passes `&f`)
-              (r"slice\(buf\)", "slice_vec(buf)")],                        # the Vec instance of cookie-factory's slice<S: AsRef<[u8]>>
+              # shim gen takes the serializer by reference (the call passes `&f`); `slice` of the returned Vec is the Vec instance of
+              # cookie-factory's slice<S: AsRef<[u8]>> (rename-tolerant: the buffer's name is whatever the let binds)
+              (r"(?s)let \((\w+), (\w+)\) = gen\(&f, Vec::new\(\)\)\?;(.*?)slice\(\1\)", r"let (\1, \2) = gen_ref(&f, Vec::new())?;\3slice_vec(\1)")],
     "contract": "    requires callable(f),\n    ensures callable(r), forall|o: GenOut| #![trigger emits(f, o)] emits(f, o) ==> emits(r, len%d_out(o))," % n}
 
 def hs_type(name):
